@@ -33,15 +33,23 @@ def new_run():
         "first and every check of the 0-3 long chain is drawn among checks the "
         "witness satisfies (satisfiable by construction; unique fields are asked "
         "for at most as many rows as satisfying values are known), plus a family "
-        "of contradictory chains / over-constrained unique fields. One evaluation "
-        "= one case; every draw of the case is validated by the producing schema. "
+        "of contradictory chains / over-constrained unique fields, a family of "
+        "simple cases executed in FRESH interpreters (nothing validated before "
+        "strategy() is called) and a fixed directed corpus (one tiny case per "
+        "call site known to emit invalid data). One evaluation = one case; every "
+        "draw of the case is validated by the producing schema (a rejection is "
+        "confirmed on a pristine equal schema). "
         "non-trivial = at least one draw was returned and judged (or, for the "
         "contradictory family, the strategy was run to its report); distinct = "
         "canonical hash of (spec, size, mode)",
         ["pandas backend only (pandera strategies exist only for pandas)",
          "hypothesis 6.168 generate phase only, explicit seeds, no database",
          "acceptance is judged by the producing schema's own validate(lazy=True)",
-         "a strategy that raises on a satisfiable schema is counted as not decided"])
+         "a strategy that raises on a satisfiable schema is counted as not decided",
+         "a case whose hypothesis run exceeds 3 s (quick) / 8 s (thorough) is cut "
+         "off at the next example attempt; what was drawn until then is judged",
+         "string witnesses avoid backslash-zero: numpy str_ scalars drop trailing "
+         "NUL characters (numpy limitation, not judged)"])
 
 
 # --------------------------------------------------------------------------
@@ -720,14 +728,19 @@ def report(run, kind, case, brief, d, verdict, info, verbose):
 def run(run, ctx):
     n_cases, n_draws, n_cold = N_CASES[ctx.tier], N_DRAWS[ctx.tier], N_COLD[ctx.tier]
     prewarm()
-    for i in ctx.cases(n_cases + n_cold):
+    directed = G.directed_cases()
+    for i in ctx.cases(n_cases + n_cold + len(directed)):
         rng = ctx.rng(PID, i)
         if i < n_cases:
             case = G.gen_case(rng)
             one_case(run, case, rng.getrandbits(32), n_draws, limit=TIME_LIMIT[ctx.tier])
-        else:
+        elif i < n_cases + n_cold:
             case = G.gen_cold_case(rng, i - n_cases)
             cold_case(run, case, rng.getrandbits(32), n_draws)
+        else:
+            run.count("directed_corpus_cases")
+            one_case(run, directed[i - n_cases - n_cold], rng.getrandbits(32), n_draws,
+                     limit=TIME_LIMIT[ctx.tier])
 
 
 def cold_case(run, case, hseed, n, verbose=False):
@@ -779,7 +792,7 @@ FLOORS_QUICK = {
     "judged:with_index:single": 6, "judged:with_index:multi": 2,
     "judged:chain_len:1": 40, "judged:chain_len:2": 40, "judged:chain_len:3": 20,
     "distinct_ordered_check_pairs_judged": 50,
-    "dtypes_judged": len(G.ALL_DTYPES) - 2,
+    "dtypes_judged": len(G.ALL_DTYPES) - 2, "directed_corpus_cases": 17,
     "sizes_judged": 7,
 }
 
@@ -791,7 +804,8 @@ def finalize(run, ctx):
     c["sizes_judged"] = sum(1 for z in G.SIZES if c.get(f"judged:size:{z}", 0) > 0)
     mult = 1 if ctx.tier == "quick" else 8
     for name, m in FLOORS_QUICK.items():
-        run.floors[name] = m if name in ("dtypes_judged", "sizes_judged") else m * mult
+        run.floors[name] = m if name in ("dtypes_judged", "sizes_judged",
+                                         "directed_corpus_cases") else m * mult
     if ctx.tier == "thorough":
         run.floors["dtypes_judged"] = len(G.ALL_DTYPES)
         run.floors["distinct_ordered_check_pairs_judged"] = 150
